@@ -78,6 +78,11 @@ fn calc_max_day_cost_per_sec(all_deltas: &Vec<TxDelta>) -> MaxDayCosts {
 
     let mut ignored_delta_descs = Vec::<String>::new();
 
+    // The closing (last observed) cost of every security on each day it has a
+    // TxDelta. This, not the day's maximum, is what a later day starts from.
+    let mut closing_costs_by_day =
+        HashMap::<Date, HashMap<Security, GreaterEqualZeroDecimal>>::new();
+
     // Keep track of the maximum cost for each security on any date where there's a TxDelta.
     // For example, SECA on 2000-01-01 has ACB 12, ACB 150, and ACB 0, so after the loop below,
     // we'll have a dateCosts[2001-01-01][SECA] = 150
@@ -109,6 +114,10 @@ fn calc_max_day_cost_per_sec(all_deltas: &Vec<TxDelta>) -> MaxDayCosts {
         let day_max_costs: &mut MaxSingleDayCosts =
             max_costs_by_day.get_mut(&date_from_delta).unwrap();
         day_max_costs.observe_new_cost(sec, total_acb);
+        closing_costs_by_day
+            .entry(date_from_delta)
+            .or_insert_with(HashMap::new)
+            .insert(sec.clone(), total_acb);
 
         if !day_zero_sec_costs.contains_key(sec) {
             day_zero_sec_costs.insert(
@@ -128,6 +137,7 @@ fn calc_max_day_cost_per_sec(all_deltas: &Vec<TxDelta>) -> MaxDayCosts {
     let mut last_acbs = HashMap::<Security, GreaterEqualZeroDecimal>::new();
     for day in sorted_days {
         let max_costs = max_costs_by_day.get_mut(&day).unwrap();
+        let closing_costs = closing_costs_by_day.get(&day);
         for sec in &security_set {
             let last_acb = *max_costs
                 .sec_max_cost_for_day
@@ -135,7 +145,12 @@ fn calc_max_day_cost_per_sec(all_deltas: &Vec<TxDelta>) -> MaxDayCosts {
                 .or_else(|| last_acbs.get(sec))
                 .unwrap_or_else(|| &day_zero_sec_costs.get(sec).unwrap().1);
 
-            last_acbs.insert(sec.clone(), last_acb);
+            // Carry the closing cost of the day forward, not its maximum.
+            let carried_acb = closing_costs
+                .and_then(|costs| costs.get(sec))
+                .map(|v| *v)
+                .unwrap_or(last_acb);
+            last_acbs.insert(sec.clone(), carried_acb);
             if !max_costs.sec_max_cost_for_day.contains_key(sec) {
                 max_costs.observe_new_cost(sec, last_acb);
             }
